@@ -22,9 +22,14 @@ def build_registry() -> Registry:
 
     mbox_c.declare_recovery(reg)
     mbox_c.declare_store(reg)
+    mbox_c.declare_concurrency_oracles(reg)
     from . import search_c
 
     search_c.declare_text_keys(reg)
+    from . import auth_c
+
+    auth_c.declare_pop3_auth(reg)
+    auth_c.declare_pop3_relay(reg)
     from ._props import PROPS
 
     for pid, info in PROPS.items():
